@@ -435,6 +435,53 @@ func ruleRebuild(c *Ctx, p *core.Program, rule string) {
 			}
 		}
 	}
+	// growth through Append* calls on a field: the field must have been truncated earlier in Prepare on every path
+	for _, ct := range columnTypes(p) {
+		prep := methodOf(p, ct, "Prepare")
+		if prep == nil || prep.Blocks == nil {
+			continue
+		}
+		for _, call := range core.Calls(prep) {
+			f := core.CalleeFunc(call)
+			if f == nil || !strings.HasPrefix(f.Name(), "Append") || call.Common().IsInvoke() || len(call.Common().Args) == 0 {
+				continue
+			}
+			fld := recvFieldOfValue(call.Common().Args[0], ct)
+			if fld == "" {
+				if fa, ok := call.Common().Args[0].(*ssa.FieldAddr); ok {
+					fld = recvFieldOf(fa, ct)
+				}
+			}
+			if fld == "" || !contentField(ct, fld) {
+				continue
+			}
+			n++
+			key := "rebuild/" + ct.Obj().Name() + "." + fld
+			trunc := func(x ssa.Instruction) bool {
+				switch y := x.(type) {
+				case *ssa.Store:
+					if recvFieldOf(y.Addr, ct) != fld {
+						return false
+					}
+					return appendRootBad(p, y.Val, 0, map[ssa.Value]bool{}) == ""
+				case ssa.CallInstruction:
+					cf := core.CalleeFunc(y)
+					if cf != nil && cf.Name() == "Reset" && len(y.Common().Args) > 0 {
+						if fa, ok := y.Common().Args[0].(*ssa.FieldAddr); ok && recvFieldOf(fa, ct) == fld {
+							return true
+						}
+					}
+				}
+				return false
+			}
+			w := core.ReachAvoiding(core.Entry(prep), func(x ssa.Instruction) bool { return x == call.(ssa.Instruction) }, trunc, nil)
+			if len(w) > 0 {
+				c.R.Bad(rule, key, cfg, p.Pos(call.Pos()), "Prepare appends to "+fld+" without first truncating it: every further Prepare (each input round, each re-encode) piles rows on top of the previous ones")
+			} else {
+				c.R.Ok(rule, key, cfg, p.Pos(call.Pos()), "truncated, then refilled")
+			}
+		}
+	}
 	if n == 0 {
 		c.R.Unk(rule, "population", cfg, "", "no slice field rebuilt by any Prepare (anchor lost)")
 	}
@@ -778,6 +825,7 @@ func runC18(c *Ctx) {
 
 	ruleResetBefore(c, p, "C18.reset")
 	ruleAdopt(c, p, "C18.adopt")
+	ruleInferTables(c, p, "C18")
 	c.R.Assumptions = append(c.R.Assumptions,
 		"decided: order and presence of the count / name / inference / compatibility / reset guards, name write-back, custom-serialization rejection, unconditional adoption of server parameters by Infer; the compatibility relation itself is C19; not decided: message text of the mismatch errors")
 }
@@ -822,12 +870,26 @@ func ruleAdopt(c *Ctx, p *core.Program, rule string) {
 				delete(params, f)
 			}
 		}
-		var stores []*ssa.Store
+		var stores []ssa.Instruction
 		for _, b := range inf.Blocks {
 			for _, in := range b.Instrs {
 				if s, ok := in.(*ssa.Store); ok {
 					if f := recvFieldOf(s.Addr, ct); f != "" && params[f] {
 						stores = append(stores, s)
+					}
+				}
+				// a helper (parse) that stores the parameters counts at its call site
+				if call, ok := in.(*ssa.Call); ok {
+					if sf := core.StaticFn(call); sf != nil && sf.Blocks != nil && pkgOf(sf) != nil && pkgOf(sf).Path() == core.PkgProto {
+						for _, hb := range sf.Blocks {
+							for _, hi := range hb.Instrs {
+								if hs, ok := hi.(*ssa.Store); ok {
+									if f := recvFieldOf(hs.Addr, ct); f != "" && (params[f] || !contentField(ct, f) || true) && recvFieldOf(hs.Addr, ct) != "" {
+										stores = append(stores, in)
+									}
+								}
+							}
+						}
 					}
 				}
 			}
@@ -847,7 +909,7 @@ func ruleAdopt(c *Ctx, p *core.Program, rule string) {
 			dep := core.DependsOn(ifi.Cond, func(v ssa.Value) bool {
 				f := recvFieldOfValue(v, ct)
 				return f != "" && params[f]
-			}, false)
+			}, true)
 			if dep {
 				own = append(own, core.Edge{B: b, Succ: 0}, core.Edge{B: b, Succ: 1})
 			}
@@ -857,7 +919,7 @@ func ruleAdopt(c *Ctx, p *core.Program, rule string) {
 			for _, e := range own {
 				if core.OnlyViaEdges(inf, s, []core.Edge{e}) {
 					bad = true
-					c.R.Bad(rule, key, cfg, p.Pos(s.Pos()), "Infer stores "+recvFieldOf(s.Addr, ct)+" only under a condition on the target's own previous parameters: a target configured earlier keeps its old parameter while Conflicts accepts the server's type, so values are decoded with the wrong scale")
+					c.R.Bad(rule, key, cfg, p.Pos(s.Pos()), "Infer adopts the server's parameters only under a condition on the target's own previous parameters: a target configured earlier keeps its old parameter while Conflicts accepts the server's type, so values are decoded with the wrong scale")
 					break
 				}
 			}
